@@ -14,6 +14,7 @@ open Model
 open Driver_util
 
 let cases = ref 0 and hits = ref 0 and corr_fail = ref 0 and mon_fail = ref 0 and probes = ref 0
+let blocks_checked = ref 0
 let replayed = ref 0 and wire_checked = ref 0 and wire_errors = ref 0 and waits_compared = ref 0
 let distinct : (string, unit) Hashtbl.t = Hashtbl.create 64
 let twin_state : (string, string) Hashtbl.t = Hashtbl.create 16
@@ -86,7 +87,7 @@ let rec variants (items : item list) : item list list =
       List.concat (List.map (fun p -> List.map (fun v -> IMine p :: v) (variants r)) (perms txs))
   | x :: r -> List.map (fun v -> x :: v) (variants r)
 
-type model_obs = { m_wire : (string * (int * int * bool)) list; m_waits : (string * int list) list;
+type model_obs = { m_wire : (string * (int * int * bool)) list; m_waits : (string * int list) list; m_deliv : int list;
                    m_mon_stuck : bool; m_api_stuck : bool; m_note : string }
 
 let count_errs (c : rconf) = List.length (List.filter (fun (_, e) -> match e with EvRpc (_, _, CallErr) -> true | _ -> false) c.rc_log)
@@ -155,7 +156,7 @@ let replay (items : item list) : model_obs option =
           List.map (fun h -> (role i, List.sort compare (List.map int_of_n h))) (waits_of (nat_of_int i) !c.rc_log))) in
         let m = thread 0 in
         let api_stuck = List.exists (fun i -> i >= 1 && i <= !started && not (rfinished (thread i))) (List.init nthreads (fun i -> i)) in
-        Some { m_wire = wire; m_waits = waits; m_mon_stuck = (not (at_poll_start m) && not (rfinished m)); m_api_stuck = api_stuck;
+        Some { m_wire = wire; m_waits = waits; m_deliv = List.map int_of_n (delivered_heights !c.rc_log); m_mon_stuck = (not (at_poll_start m) && not (rfinished m)); m_api_stuck = api_stuck;
                m_note = "" }
       end
     end
@@ -185,6 +186,14 @@ let handle (lineno : int) (line : string) (r : reader) : unit =
       Printf.printf "FAIL mon prop=C12 line=%d detail=retry-is-not-the-same-call:thread=%s,wire=%s case=%s\n" lineno role
         (show_seq (List.map (fun w -> (w.kind, w.tx, w.answered)) mine)) case
     end) (List.sort_uniq compare (List.map (fun w -> w.role) wire));
+  (* the monitor of "every block is handed to the listeners exactly once, in order" on the blocks the real chain
+     monitor handed to the real listeners (not for the reorg scenario, which disconnects) *)
+  let deliv = List.map int_of_string (split ',' (get "deliv")) in
+  if t <> 2 && not (consecutive (n_of_int 120) (List.map n_of_int deliv)) then begin
+    incr mon_fail;
+    Printf.printf "FAIL mon prop=C12 line=%d detail=block-handed-to-the-listeners-twice-or-skipped:%s case=%s\n" lineno (get "deliv") case
+  end;
+  blocks_checked := !blocks_checked + List.length deliv;
   if n < 0 then Hashtbl.replace twin_state key state
   else begin
     let hit = get "hit" = "1" in
@@ -209,6 +218,10 @@ let handle (lineno : int) (line : string) (r : reader) : unit =
             List.iter (fun role ->
               let a = of_role role mo.m_waits and b = of_role role impl_waits in
               if !d = None && a <> b then d := Some ("locks-held-at-wait:" ^ role, show_waits a, show_waits b)) wroles;
+            let dmark = (try int_of_string (get "dmark") with _ -> -1) in
+            let impl_deliv = List.filteri (fun i _ -> i >= dmark) deliv in
+            if !d = None && ms = false && as_ = false && mo.m_deliv <> impl_deliv then
+              d := Some ("delivered-blocks", String.concat "," (List.map string_of_int mo.m_deliv), String.concat "," (List.map string_of_int impl_deliv));
             if !d = None && (mo.m_mon_stuck <> ms || mo.m_api_stuck <> as_) then
               d := Some ("stuck-threads", Printf.sprintf "mon=%b,api=%b" mo.m_mon_stuck mo.m_api_stuck, Printf.sprintf "mon=%b,api=%b" ms as_);
             !d) (variants items) in
@@ -258,8 +271,8 @@ let handle (lineno : int) (line : string) (r : reader) : unit =
 
 let summary () =
   if !cases > 0 then
-    Printf.printf "SUMMARY kind=OT cases=%d outage_hit=%d corr_fail=%d mon_fail=%d probes=%d distinct_nontrivial=%d replayed=%d wire_logs=%d wire_errors=%d waits=%d classes=%s\n"
-      !cases !hits !corr_fail !mon_fail !probes (Hashtbl.length distinct) !replayed !wire_checked !wire_errors !waits_compared
+    Printf.printf "SUMMARY kind=OT cases=%d outage_hit=%d corr_fail=%d mon_fail=%d probes=%d distinct_nontrivial=%d replayed=%d wire_logs=%d wire_errors=%d waits=%d blocks=%d classes=%s\n"
+      !cases !hits !corr_fail !mon_fail !probes (Hashtbl.length distinct) !replayed !wire_checked !wire_errors !waits_compared !blocks_checked
       (String.concat "," (List.sort compare (Hashtbl.fold (fun k v acc -> Printf.sprintf "%s:%d" k v :: acc) classes [])))
 
 let () = register "OT" handle; register_summary summary
